@@ -37,7 +37,8 @@ struct TimedTaskImpl {
           if (!f()) {
             timesToRun.store(0, std::memory_order_release);
             flags.fetch_or(kFFlagsCancelled, std::memory_order_acq_rel);
-            func = {};
+            // func is not cleared here: the scheduler thread may already be executing it for the
+            // next run. The closure is destroyed by ~TimedTask or together with this object.
           }
           count.fetch_add(1, std::memory_order_acq_rel);
         }
